@@ -44,9 +44,9 @@ func VH_C11_Concurrent() {
 	a1, a2 := vhArtifact(1, subj, true), vhArtifact(2, subj, true)
 	scenario := vh.Param("SCENARIO", -1)
 	if scenario < 0 {
-		scenario = vh.Choice("scenario", 6)
+		scenario = vh.Choice("scenario", 7)
 	}
-	names := []string{"two-referrers-same-subject", "two-pushes-same-tag", "push-vs-delete-tag", "push-referrer-vs-delete-referrer", "push-vs-reads", "upload-vs-manifest-push"}
+	names := []string{"two-referrers-same-subject", "two-pushes-same-tag", "push-vs-delete-tag", "push-referrer-vs-delete-referrer", "push-vs-reads", "upload-vs-manifest-push", "two-first-pushes-to-a-new-repository"}
 	vh.Tag("scenario", names[scenario])
 	switches := vh.Param("SWITCHES", 2)
 	c1, c2 := 0, 0
@@ -129,6 +129,16 @@ func VH_C11_Concurrent() {
 		vh.Assert(c1 == 201 && c2 == 201, "C11.concurrent-request-refused")
 		vh.Assert(vhGetBlob(s, "a", digest.Canonical.FromBytes([]byte("another"))).Status() == 200, "C11.acknowledged-blob-lost")
 		vh.Assert(vhBytesEq(vhGetManifest(s, "a", "t").Body, img2), "C11.acknowledged-tag-lost")
+	case 6:
+		// the first two requests a repository ever sees arrive together
+		p, q := []byte("first-p"), []byte("first-q")
+		vh.Preempt(switches)
+		vh.Go(func() { _, c1 = vhPushBlob(s, "n", p) })
+		vh.Go(func() { _, c2 = vhPushBlob(s, "n", q) })
+		vh.Join()
+		vh.Preempt(0)
+		vh.Assert(c1 == 201 && c2 == 201, "C11.concurrent-request-refused")
+		vh.Assert(vhGetBlob(s, "n", digest.Canonical.FromBytes(p)).Status() == 200 && vhGetBlob(s, "n", digest.Canonical.FromBytes(q)).Status() == 200, "C11.acknowledged-blob-lost")
 	}
 	vh.Assert(vhBytesEq(vhGetManifest(s, "a", "base").Body, img1), "C11.unrelated-tag-lost")
 	vh.Cover("C11.concurrent-end")
